@@ -16,6 +16,7 @@ fn main() {
         "retryopts" => engines::retryopts::run,
         "filter" => engines::filter::run,
         "attempt" => engines::attempt::run,
+        "reporters" => engines::reporters::run,
         "sched" => {
             engines::sched::start_watchdog();
             engines::sched::run
